@@ -10,12 +10,20 @@ Spell(ds, tab) == LET RECURSIVE S(_) S(j) == IF j > Len(ds) THEN "" ELSE tab[ds[
 Rec(ds, tab) == [s |-> Spell(ds, tab), c |-> OfDigits(ds)]
 Long6 == RandomSubset(N, [1..6 -> D])
 Long8 == RandomSubset(N, [1..8 -> D])
+\* hex colours of every admissible length with one or two digits replaced by a character that is no hex digit (signs, blank, underscore,
+\* letters next to the hex range, the radix marker): none of them is a colour, wherever the intruder stands
+Foreign == <<"+", "-", " ", "_", "g", "G", "x", "#", ".", "`", "@", "/", ":">>
+WithF == Lower \o Foreign
+DF == 16..(15 + Len(Foreign))
+Intruded == UNION {UNION {{[d EXCEPT ![i] = f] : i \in 1..n, f \in DF} \cup {[d EXCEPT ![i] = f, ![j] = f] : i \in 1..n, j \in 1..n, f \in {16, 17, 18}}
+                            : d \in RandomSubset(6, [1..n -> D])} : n \in {3, 4, 6, 8}}
 VARIABLE p
-Init == p \in (D \X D) \cup {<<-1, 0>>, <<-2, 0>>, <<-3, 0>>}
+Init == p \in (D \X D) \cup {<<-1, 0>>, <<-2, 0>>, <<-3, 0>>, <<-4, 0>>}
 Next == UNCHANGED p
 Batch == IF p[1] = -1 THEN {Rec(d, Lower) : d \in Long6 \cup Long8} \cup {Rec(d, Upper) : d \in RandomSubset(N \div 4, [1..6 -> D])}
          ELSE IF p[1] = -2 THEN {[s |-> k, c |-> OfKeyword(k)] : k \in Keywords \cup {"transparent"}}
          ELSE IF p[1] = -3 THEN {[s |-> Spell(d, Lower), c |-> <<-1, -1, -1, -1>>] : d \in UNION {[1..n -> {0, 10, 15}] : n \in {1, 2, 5, 7}} \cup RandomSubset(20, [1..9 -> D])}
+         ELSE IF p[1] = -4 THEN {[s |-> Spell(d, WithF), c |-> <<-1, -1, -1, -1>>] : d \in Intruded}
          ELSE {Rec(<<p[1], p[2], x>>, Lower) : x \in D} \cup {Rec(<<p[1], p[2], x, y>>, Lower) : x \in D, y \in D}
               \cup {Rec(<<p[1], p[2], x>>, Upper) : x \in {10, 15}} \cup {Rec(<<p[1], p[2], x, y>>, Upper) : x \in {11}, y \in {12, 3}}
 Emit == PrintT(<<"COLORS", ToJson(Batch)>>)
